@@ -69,7 +69,7 @@ fn main() {
     let n_swarm: usize = args[3].parse().unwrap();
     let corpus = args.get(4).map(|s| s == "corpus").unwrap_or(false);
     fs::create_dir_all(out).unwrap();
-    let opts = SwarmOpts { max_variants: 4, max_live_fields: 6, zst: true };
+    let opts = SwarmOpts { max_variants: 4, max_live_fields: 6, zst: true, clashing_names: false };
     let mut plans = definition_set(seed ^ 0xf11, n_swarm, corpus, &opts);
     for p in plans.iter_mut() {
         // fragments that need further crates are left out of the probes
